@@ -395,3 +395,66 @@ def _helper_store_checked(prog, call, field_keys):
             return (False, hf, n, a_test)
         res = (True, hf, n, a_test)
     return res
+
+
+def value_rewrite(prog):
+    """VALUE-REWRITE: an assembler replaces an operand's evaluated value by a constant (`operand->value = -1` for the
+    constant generators, canonical spellings) only under an exact equality test of that value.  A replacement guarded by a
+    mask or range test of the same value (`(v & m) == m`) maps many values to one before the range check sees them:
+    operands that do not fit are accepted and encode like the canonical one."""
+    from nk.cfg import dominators
+    obs = []
+    n_sites = 0
+    summ_all = ps.summaries(prog, {f.file for f in prog.fns.values() if f.file.startswith('asm/')})
+    for fn in sorted(prog.fns.values(), key=lambda f: (f.file, f.line)):
+        if not fn.file.startswith('asm/') or not fn.blocks:
+            continue
+        cd = None
+        tags = None
+        for n in sorted(fn.nodes.values(), key=lambda x: x['i']):
+            if n['k'] != 'BinaryOperator' or n.get('op') != '=':
+                continue
+            l = strip(kids(n)[0])
+            if l['k'] != 'MemberExpr' or l.get('n') != 'value' or const(kids(n)[1]) is None:
+                continue
+            w = fn.where.get(n['i'])
+            if w is None:
+                continue
+            if cd is None:
+                cd, succ = ps.control_deps(fn, set())
+            base = show(kids(l)[0])
+            guards = []
+            for (pc, ps_) in cd.get(w[0], ()):
+                cn = fn.nodes.get(fn.blocks[pc].get('cond')) if 'cond' in fn.blocks[pc] else None
+                if cn is None or len(succ[pc]) != 2 or ps_ != succ[pc][0]:
+                    continue
+                own = strip(cn)
+                while own['k'] == 'BinaryOperator' and own.get('op') in ('&&', '||'):
+                    own = strip(kids(own)[1])
+                if any(x['k'] == 'MemberExpr' and x.get('n') == 'value' and show(kids(x)[0]) == base for x in walk(own)):
+                    guards.append(own)
+            if not guards:
+                continue
+            # register / keyword operands (type tag never stored with an evaluated number) are not operand values
+            if tags is None:
+                files_ = {fn.file}
+                fi_ = ps.FnInfo(prog, fn, summ_all)
+                fi_.solve()
+                tags = ps.tag_taint(fn, ps.FlowTaint(fn, fi_))
+            tt = ps._tag_tests(fn, n, l)
+            if tt and all(t in tags and not tags[t] for t in tt):
+                continue
+            n_sites += 1
+            bad = None
+            for g in guards:
+                exact = g['k'] == 'BinaryOperator' and g.get('op') == '==' and \
+                    strip(kids(g)[0], casts=True)['k'] == 'MemberExpr' and strip(kids(g)[0], casts=True).get('n') == 'value' and \
+                    (const(kids(g)[1]) is not None or strip(kids(g)[1], casts=True)['k'] == 'MemberExpr')
+                if not exact:
+                    bad = g
+            obs.append(Ob('VALUE-REWRITE', fn.file, n['l'], fn.q, 'rewrite:%s=%s' % (show(kids(n)[0])[:30], const(kids(n)[1])),
+                          VIOLATED if bad is not None else DISCHARGED,
+                          '`%s` replaces the operand value under `%s`, which is true for many values: all of them are accepted and '
+                          'encoded as %s, whatever the range check that follows would have said' % (show(n)[:50], show(bad)[:50], const(kids(n)[1])) if bad is not None else '',
+                          'replacement guarded by an exact comparison'))
+    return RuleResult('VALUE-REWRITE', obs, 2, {'sites': n_sites})
